@@ -7,7 +7,7 @@ import rules_C01 as R1
 import sym as S, fc
 
 LEVEL = "other"
-TECHNIQUE = R1.TECHNIQUE + "; format-template table agreement; twin comparison"
+TECHNIQUE = R1.TECHNIQUE + "; format-template table agreement; twin comparison as cross-reference"
 EXPLANATION = ("Structural necessary conditions in the mapper and the cache: result.exception is Some iff trace.exception is Some, holding the "
                "remapped throwable or else the unchanged one; result.cause is Some iff trace.cause is Some (recursive call on the inner trace, "
                "so the cause-chain depth is preserved); frames come from one fold starting from an empty vector whose body, per frame, "
